@@ -169,9 +169,10 @@ def replay_call(call):
     from pyg_base import Dict
     tri = lambda v: [True, False] if v is None else [bool(v)]   # noqa
     bad, tried = [], 0
-    for k_cal, d_cal, kd, dk, third in itertools.product(tri(call.get('K0_callable')), tri(call.get('D0_callable')), tri(call.get('K0_needs_D0')),
-                                                         tri(call.get('D0_needs_K0')), (None, [], ['K0'], ['D0'])):
-        args = {'K0': (['D0'] if kd else []) + ['x'], 'D0': (['K0'] if dk else []) + ['y']}
+    for k_cal, d_cal, kd, dk, third, selfref in itertools.product(tri(call.get('K0_callable')), tri(call.get('D0_callable')), tri(call.get('K0_needs_D0')),
+                                                                  tri(call.get('D0_needs_K0')), (None, [], ['K0'], ['D0']), (False, True)):
+        # selfref: K0's function names K0 itself (an update of the existing item; evaluated when it is the last one left)
+        args = {'K0': (['D0'] if kd else []) + (['K0'] if selfref else []) + ['x'], 'D0': (['K0'] if dk else []) + ['y']}
         spec = {}
         spec['K0'] = ('f', args['K0']) if k_cal else ('v', 'plainK')
         spec['D0'] = ('f', args['D0']) if d_cal else ('v', 'plainD')
